@@ -34,7 +34,7 @@ OUTSIDE = {"C05-m1", "C05-m2", "C05-m3", "C05-m6", "C02-m9", "C12-m9", "C04-m11"
 # benign refactors that are still reported (open false alarms, DESIGN.md §10): shown as "open", not hidden
 OPEN_BENIGN = {
  # round 8 (maintenance for a new contributor): restructurings the rules do not follow yet, DESIGN.md §10
- "C01-y2", "C03-y3", "C08-y2",  # ReadN/WriteN retry loop behind a closure / a struct with methods
+ "C01-y2", "C08-y2",            # ReadN/WriteN retry loop in a struct with methods
  "C03-y2",                      # the error of a decoding step carried in a result struct
  "C06-y2",                      # credentials bundled in a struct with a wellFormed flag
  "C15-y3",                      # per-connection state of server.handle in a struct with methods
